@@ -373,8 +373,9 @@ def gen_op(draw, m: M, t, opts):
             op = {"k": "S", "ops": [["clear"]]}
             m.apply(op, t)
             return op
-        if opts.get("whole") and m.s[1] == "int" and not m.touched() and draw(st.integers(0, 3)) == 0:
-            # whole-set write (copy or move flavour) as the first operation on the set in a cycle; often the empty set
+        if opts.get("whole") and m.s[1] == "int" and draw(st.integers(0, 3)) == 0:
+            # whole-set write (copy or move flavour), also AFTER element-wise mutations of the same cycle (an element added earlier
+            # in the cycle and not in the new contents must leave no trace); often the empty set
             new = [] if draw(st.integers(0, 2)) == 0 else sorted(draw(st.sets(st.integers(0, opts.get("keys", 8)), max_size=4)))
             op = {"k": "sets", "v": new, "move": draw(st.booleans())}
             m.apply(op, t)
